@@ -324,6 +324,13 @@ func c20BodiesBuild(fam int, thorough bool) []c20Body {
 				}
 			}
 		}
+		// two and three language entries: code and audio type of the descriptor are those of its first entry
+		for t := 0; t < 256; t += 5 {
+			out = append(out,
+				c20Body{[]byte{'e', 'n', 'g', byte(t), 's', 'p', 'a', byte(t + 1)}, c20Expect{lang: "eng", audio: byte(t)}},
+				c20Body{[]byte{'f', 'r', 'a', byte(t), 'd', 'e', 'u', 0x00, 'i', 't', 'a', 0xFF}, c20Expect{lang: "fra", audio: byte(t)}},
+				c20Body{[]byte{'e', 'n', 'g', byte(t), 's', 'p'}, c20Expect{lang: "eng", audio: byte(t)}})
+		}
 	case famTTML:
 		for _, ext := range []byte{0x20, 0x00, 0x21} {
 			for _, l := range []string{"eng", "spa", "fra", "zzz", "\x00\x00\x00", "ENG", "de ", "qaa"} {
@@ -576,7 +583,7 @@ func init() {
 			},
 			&engine.Enum[c20DescCase]{
 				Name: "descriptors",
-				Rule: "case = (body family, tag) for all 6 families x all 256 tags; Check runs every body of the family (bitrate: <=2-bit patterns+stride grid [thorough: all 2^21] x reserved bits; ISO-639: 64 codes x 256 audio types; TTML: 3 ext bytes x 8 languages x 256 purpose bytes; registration: DOVI + all single-byte deviations + short bodies + DOVI behind 5 other leads at every offset 1..8; Dolby Vision codec string asked with 9 different original-codec arguments; Dolby Vision: 128 profiles x 32 levels x flag bits x versions; opaque bodies of length 0..6). Decoders whose tag equals the descriptor tag are only called on bodies of that tag's own family (well-formed); all other tag-dispatched decoders must return their neutral value. non-trivial = each distinct (tag, body)",
+				Rule: "case = (body family, tag) for all 6 families x all 256 tags; Check runs every body of the family (bitrate: <=2-bit patterns+stride grid [thorough: all 2^21] x reserved bits; ISO-639: 64 codes x 256 audio types, plus descriptors of two and three language entries and one cut inside the second entry; TTML: 3 ext bytes x 8 languages x 256 purpose bytes; registration: DOVI + all single-byte deviations + short bodies + DOVI behind 5 other leads at every offset 1..8; Dolby Vision codec string asked with 9 different original-codec arguments; Dolby Vision: 128 profiles x 32 levels x flag bits x versions; opaque bodies of length 0..6). Decoders whose tag equals the descriptor tag are only called on bodies of that tag's own family (well-formed); all other tag-dispatched decoders must return their neutral value. non-trivial = each distinct (tag, body)",
 				Gen: func(r *engine.Run, emit func(c20DescCase)) {
 					for f := 0; f < famCount; f++ {
 						for t := 0; t < 256; t++ {
